@@ -132,6 +132,7 @@ type Explorer struct {
 	Intercepts  map[string]int
 	KnownHits   map[string]int
 	seedOnly    bool
+	Transcript  []string // transcript of the first completed path (cross-validation entries are single-path)
 }
 
 func NewExplorer(entry string, opts Options) *Explorer {
@@ -236,6 +237,7 @@ type runState struct {
 	callCounts map[string]int
 	sepFree    map[string]bool // SMT variables known to contain no path separator (digests)
 	class      string          // classification of the next violation, set by the harness (sym.Class)
+	transcript []string
 }
 
 func newSolver(cmd []string) (*smt.Solver, error) { return smt.NewSolver(cmd...) }
@@ -735,6 +737,9 @@ func (e *Explorer) runPath(w *Worker, prefix []Decision, entryFn func(w *Worker)
 	}
 	e.sample(r, end.kind)
 	e.mu.Lock()
+	if len(r.transcript) > 0 && e.Transcript == nil && end.kind == endDone {
+		e.Transcript = r.transcript
+	}
 	for k, n := range r.icounts {
 		e.Intercepts[k] += n
 	}
